@@ -49,6 +49,7 @@ def call_log(facts, body):
     ctx.open_loops = True
     ctx.log_calls = LOG.replace("__FEEDER__", re.escape(feeder_name(facts)))
     ctx.noinline = list(NOINLINE)
+    ctx.option_algebra = True       # unwrap_or_else / match / if let on the length hint all become one case form
     it = E.Interp(ctx, body)
     it.run()
     seen = set()
@@ -143,6 +144,14 @@ def encoder_rules(facts):
         okt = False
         if len(ts) == 1:
             v = E.strip_casts(ts[0][1][1])
+            if v[0] == "case":
+                # case discr(src.len_hint()) { None => context.total_samples(), Some(n) => n }
+                sc = E.strip_casts(v[1])
+                arms = dict((lab if not isinstance(lab, tuple) else lab[0], x) for lab, x in v[2])
+                hintc = "<T as source::Source>::len_hint(arg2)"
+                okt = sc[0] == "discr" and E.canon(sc[1]) == hintc and set(arms) == {0, 1} \
+                    and E.canon(arms[0]) == "source::Context::total_samples(%s)" % read_from \
+                    and E.canon(arms[1]) == hintc + "@Some.0"
             if v[0] == "call" and re.search(r"Option::<usize>::unwrap_or_else", v[1]) and len(v[2]) == 2:
                 hint, clo = v[2]
                 okt = E.canon(hint) == "<T as source::Source>::len_hint(arg2)" and clo[0] == "closure"
